@@ -9,7 +9,7 @@ use serde_json::{json, Value};
 pub static ENGINE: Engine = Engine {
     prop: "C18",
     level: "exploration",
-    rule: "the real random_graph_gen binary with its random source scripted through the verif-hooks feature: for every (V, -u) whose candidate edge list has m <= 6 entries (directed V <= 3, undirected V <= 4) ALL m! Fisher-Yates choice vectors x every E in 0..m+1 x {edge list, --dot}: exactly E distinct edges, endpoints distinct and among v0..v(V-1), no reversed pair under -u, E > m refused with non-zero exit and no edge printed, and the number of distinct outputs over all vectors equals m!/(m-E)! (proof that every choice is owned). For larger candidate lists (V=4,5 directed; V=5,6 undirected; m = 10..20) every ORDERED SELECTION of E <= 2 (3) candidate edges is forced by a constructed choice vector. -o FILE onto an existing longer file = stdout of the same request. --complete x V in 0..5 x -u = all pairs. --convert: every edge list <= 3 over {a,b,c} x -u x {csv, --dot} reproduces the list (reversed duplicates merged under -u). --colors k: every loop-free graph on <= 4 named vertices (two name families, one with names that are prefixes of each other) x k in 0..3: the output has a clique choosing one (vertex,colour) per input vertex iff the input is k-colourable (brute force). Labelled supplement: un-scripted runs with fresh entropy (sampled, not part of the claim). distinct = distinct (argv, script, stdout)",
+    rule: "the real random_graph_gen binary with its random source scripted through the verif-hooks feature: for every (V, -u) whose candidate edge list has m <= 6 entries (directed V <= 3, undirected V <= 4) ALL m! Fisher-Yates choice vectors x every E in 0..m+1 x {edge list, --dot}: exactly E distinct edges, endpoints distinct and among v0..v(V-1), no reversed pair under -u, E > m refused with non-zero exit and no edge printed, and the number of distinct outputs over all vectors equals m!/(m-E)! (proof that every choice is owned). For larger candidate lists (V=4,5 directed; V=5,6 undirected; m = 10..20) every ORDERED SELECTION of E <= 2 (3) candidate edges is forced by a constructed choice vector. -o FILE onto an existing longer file = stdout of the same request. --complete x V in 0..5 x -u = all pairs. --convert: every edge list <= 3 over {a,b,c} x -u x {csv, --dot} reproduces the list (reversed duplicates merged under -u). --colors k: every loop-free graph on <= 4 named vertices (two name families, one with names that are prefixes of each other) x k in 0..3: the output has a clique choosing one (vertex,colour) per input vertex iff the input is k-colourable (brute force). Larger inputs: graphs on five vertices with two-digit names x k in 2..4 (every third graph in quick, all 1023 in thorough) and edge lists of 4..10 edges through --convert. Labelled supplement: un-scripted runs with fresh entropy (sampled, not part of the claim). distinct = distinct (argv, script, stdout)",
     assumptions: &["the hook replays RSBDD_VERIF_RNG as the u32 values drawn by rand 0.8's shuffle (widening-multiply index sampling); a mismatch shows up as a wrong number of distinct outputs", "k-colourability is defined on loop-free graphs; isolated vertices cannot be expressed in an edge list"],
     max_shards: 64,
     run,
@@ -468,6 +468,51 @@ fn convert_sweep(ctx: &mut Ctx) {
     }
 }
 
+/// larger inputs for --convert / --colors: five vertices (incl. two-digit names), more
+/// colours, longer edge lists
+fn convert_sweep_large(ctx: &mut Ctx) {
+    let mut idx = 0u64;
+    let v5 = ["v1", "v10", "v2", "v11", "w"];
+    let mut und = vec![];
+    for i in 0..5 {
+        for j in (i + 1)..5 {
+            und.push((v5[i].to_string(), v5[j].to_string()));
+        }
+    }
+    let th = ctx.thorough();
+    for mask in 1..(1usize << und.len()) {
+        // quick: every third graph; thorough: all 1023
+        if !th && mask % 3 != 0 {
+            continue;
+        }
+        let edges: Vec<(String, String)> = (0..und.len()).filter(|i| mask & (1 << i) != 0).map(|i| if (mask + i) % 3 == 0 { (und[i].1.clone(), und[i].0.clone()) } else { und[i].clone() }).collect();
+        for k in [2usize, 3, 4] {
+            idx += 1;
+            if ctx.mine(idx) {
+                check_colors(ctx, &edges, k);
+            }
+        }
+        idx += 1;
+        if ctx.mine(idx) {
+            // the same lists through --convert (4..10 edges, five vertices)
+            check_convert(ctx, &edges, mask % 2 == 0, mask % 4 < 2);
+        }
+    }
+    // lists with repeated and reversed edges, length 4..6
+    let base = [("a", "b"), ("b", "a"), ("b", "c"), ("a", "b"), ("c", "b"), ("d", "a")];
+    for len in 4..=6usize {
+        for rot in 0..6usize {
+            let edges: Vec<(String, String)> = (0..len).map(|i| base[(i + rot) % 6]).map(|(x, y)| (x.to_string(), y.to_string())).collect();
+            for u in [false, true] {
+                idx += 1;
+                if ctx.mine(idx) {
+                    check_convert(ctx, &edges, u, rot % 2 == 0);
+                }
+            }
+        }
+    }
+}
+
 fn unscripted_supplement(ctx: &mut Ctx) {
     // labelled supplement (sampled with fresh entropy; not part of the exhaustive claim)
     let runs = if ctx.thorough() { 200 } else { 40 };
@@ -493,6 +538,7 @@ fn run(ctx: &mut Ctx) {
         complete_sweep(ctx);
     }
     convert_sweep(ctx);
+    convert_sweep_large(ctx);
     unscripted_supplement(ctx);
     crate::cli::cleanup_scratch();
 }
